@@ -464,3 +464,51 @@ package statsd
 // the ticker's stop function
 //@ functype stopFn() sig func()
 //@   modifies everything
+
+// ---- handler_http_forwarder_v2.go (C14): what the forwarder puts into the protobuf message -------------------
+// Every series of the map appears in the message under the same name and tags key, with the same tags, source
+// and values (set members as a list holding exactly the members); nothing else appears.
+//@ pred sameMembers(vs []string, m map[string]struct{}) := (base(vs) == 0 || allocated(base(vs))) && (forall i int :: off(vs) <= i && i < off(vs) + len(vs) ==> (at(vs, i) in m)) && (forall x string :: x in m ==> (exists i int :: off(vs) <= i && i < off(vs) + len(vs) && at(vs, i) == x))
+//@ pred pbOKG(p *pb.GaugeTagV2, m map[string]gostatsd.Gauge) := p != nil && allocated(p) && p.TagMap != nil && allocated(p.TagMap) && (forall t string :: (t in p.TagMap) == (t in m)) && (forall t string :: t in m ==> p.TagMap[t] != nil && allocated(p.TagMap[t]) && p.TagMap[t].Value == m[t].Value && p.TagMap[t].Hostname == m[t].Source && p.TagMap[t].Tags == m[t].Tags)
+//@ pred pbDistinctG(c map[string]*pb.GaugeTagV2) := forall n1 string, n2 string :: n1 in c && n2 in c && n1 != n2 ==> c[n1] != c[n2] && c[n1].TagMap != c[n2].TagMap
+//@ pred pbOKC(p *pb.CounterTagV2, m map[string]gostatsd.Counter) := p != nil && allocated(p) && p.TagMap != nil && allocated(p.TagMap) && (forall t string :: (t in p.TagMap) == (t in m)) && (forall t string :: t in m ==> p.TagMap[t] != nil && allocated(p.TagMap[t]) && p.TagMap[t].Value == m[t].Value && p.TagMap[t].Hostname == m[t].Source && p.TagMap[t].Tags == m[t].Tags)
+//@ pred pbDistinctC(c map[string]*pb.CounterTagV2) := forall n1 string, n2 string :: n1 in c && n2 in c && n1 != n2 ==> c[n1] != c[n2] && c[n1].TagMap != c[n2].TagMap
+//@ pred pbOKS(p *pb.SetTagV2, m map[string]gostatsd.Set) := p != nil && allocated(p) && p.TagMap != nil && allocated(p.TagMap) && (forall t string :: (t in p.TagMap) == (t in m)) && (forall t string :: t in m ==> p.TagMap[t] != nil && allocated(p.TagMap[t]) && sameMembers(p.TagMap[t].Values, m[t].Values) && p.TagMap[t].Hostname == m[t].Source && p.TagMap[t].Tags == m[t].Tags)
+//@ pred pbDistinctS(c map[string]*pb.SetTagV2) := forall n1 string, n2 string :: n1 in c && n2 in c && n1 != n2 ==> c[n1] != c[n2] && c[n1].TagMap != c[n2].TagMap
+//@ pred pbOKT(p *pb.TimerTagV2, m map[string]gostatsd.Timer) := p != nil && allocated(p) && p.TagMap != nil && allocated(p.TagMap) && (forall t string :: (t in p.TagMap) == (t in m)) && (forall t string :: t in m ==> p.TagMap[t] != nil && allocated(p.TagMap[t]) && p.TagMap[t].SampleCount == m[t].SampledCount && p.TagMap[t].Values == m[t].Values && p.TagMap[t].Hostname == m[t].Source && p.TagMap[t].Tags == m[t].Tags)
+//@ pred pbDistinctT(c map[string]*pb.TimerTagV2) := forall n1 string, n2 string :: n1 in c && n2 in c && n1 != n2 ==> c[n1] != c[n2] && c[n1].TagMap != c[n2].TagMap
+//@ func translateToProtobufV2
+//@   floats real
+//@   requires metricMap != nil
+//@   ensures  result != nil
+//@   ensures  [gauges] result.Gauges != nil && (forall n string :: (n in result.Gauges) == (n in metricMap.Gauges)) && (forall n string :: n in metricMap.Gauges ==> pbOKG(result.Gauges[n], metricMap.Gauges[n]))
+//@   ensures  [counters] result.Counters != nil && (forall n string :: (n in result.Counters) == (n in metricMap.Counters)) && (forall n string :: n in metricMap.Counters ==> pbOKC(result.Counters[n], metricMap.Counters[n]))
+//@   ensures  [sets] result.Sets != nil && (forall n string :: (n in result.Sets) == (n in metricMap.Sets)) && (forall n string :: n in metricMap.Sets ==> pbOKS(result.Sets[n], metricMap.Sets[n]))
+//@   ensures  [timers] result.Timers != nil && (forall n string :: (n in result.Timers) == (n in metricMap.Timers)) && (forall n string :: n in metricMap.Timers ==> pbOKT(result.Timers[n], metricMap.Timers[n]))
+//@   loop 1 invariant pbMetricMap.Gauges != nil && allocated(pbMetricMap.Gauges) && (forall n string :: (n in pbMetricMap.Gauges) == visited(1)[n]) && (forall n string :: visited(1)[n] ==> n in metricMap.Gauges) && pbDistinctG(pbMetricMap.Gauges)
+//@   loop 1 invariant forall n string :: n in pbMetricMap.Gauges ==> pbOKG(pbMetricMap.Gauges[n], metricMap.Gauges[n])
+//@   loop 2 invariant pbMetricMap.Gauges != nil && allocated(pbMetricMap.Gauges) && (forall n string :: (n in pbMetricMap.Gauges) == visited(1)[n]) && (forall n string :: visited(1)[n] ==> n in metricMap.Gauges) && pbDistinctG(pbMetricMap.Gauges) && metricName in pbMetricMap.Gauges && m == metricMap.Gauges[metricName]
+//@   loop 2 invariant forall n string :: n in pbMetricMap.Gauges && n != metricName ==> pbOKG(pbMetricMap.Gauges[n], metricMap.Gauges[n])
+//@   loop 2 invariant pbMetricMap.Gauges[metricName] != nil && allocated(pbMetricMap.Gauges[metricName]) && pbMetricMap.Gauges[metricName].TagMap != nil && allocated(pbMetricMap.Gauges[metricName].TagMap) && (forall t string :: (t in pbMetricMap.Gauges[metricName].TagMap) == visited(2)[t])
+//@   loop 2 invariant forall t string :: t in pbMetricMap.Gauges[metricName].TagMap ==> t in m && pbMetricMap.Gauges[metricName].TagMap[t] != nil && allocated(pbMetricMap.Gauges[metricName].TagMap[t]) && pbMetricMap.Gauges[metricName].TagMap[t].Value == m[t].Value && pbMetricMap.Gauges[metricName].TagMap[t].Hostname == m[t].Source && pbMetricMap.Gauges[metricName].TagMap[t].Tags == m[t].Tags
+//@   loop 3 invariant pbMetricMap.Counters != nil && allocated(pbMetricMap.Counters) && (forall n string :: (n in pbMetricMap.Counters) == visited(3)[n]) && (forall n string :: visited(3)[n] ==> n in metricMap.Counters) && pbDistinctC(pbMetricMap.Counters)
+//@   loop 3 invariant forall n string :: n in pbMetricMap.Counters ==> pbOKC(pbMetricMap.Counters[n], metricMap.Counters[n])
+//@   loop 4 invariant pbMetricMap.Counters != nil && allocated(pbMetricMap.Counters) && (forall n string :: (n in pbMetricMap.Counters) == visited(3)[n]) && (forall n string :: visited(3)[n] ==> n in metricMap.Counters) && pbDistinctC(pbMetricMap.Counters) && metricName in pbMetricMap.Counters && m == metricMap.Counters[metricName]
+//@   loop 4 invariant forall n string :: n in pbMetricMap.Counters && n != metricName ==> pbOKC(pbMetricMap.Counters[n], metricMap.Counters[n])
+//@   loop 4 invariant pbMetricMap.Counters[metricName] != nil && allocated(pbMetricMap.Counters[metricName]) && pbMetricMap.Counters[metricName].TagMap != nil && allocated(pbMetricMap.Counters[metricName].TagMap) && (forall t string :: (t in pbMetricMap.Counters[metricName].TagMap) == visited(4)[t])
+//@   loop 4 invariant forall t string :: t in pbMetricMap.Counters[metricName].TagMap ==> t in m && pbMetricMap.Counters[metricName].TagMap[t] != nil && allocated(pbMetricMap.Counters[metricName].TagMap[t]) && pbMetricMap.Counters[metricName].TagMap[t].Value == m[t].Value && pbMetricMap.Counters[metricName].TagMap[t].Hostname == m[t].Source && pbMetricMap.Counters[metricName].TagMap[t].Tags == m[t].Tags
+//@   loop 5 invariant pbMetricMap.Sets != nil && allocated(pbMetricMap.Sets) && (forall n string :: (n in pbMetricMap.Sets) == visited(5)[n]) && (forall n string :: visited(5)[n] ==> n in metricMap.Sets) && pbDistinctS(pbMetricMap.Sets)
+//@   loop 5 invariant forall n string :: n in pbMetricMap.Sets ==> pbOKS(pbMetricMap.Sets[n], metricMap.Sets[n])
+//@   loop 6 invariant pbMetricMap.Sets != nil && allocated(pbMetricMap.Sets) && (forall n string :: (n in pbMetricMap.Sets) == visited(5)[n]) && (forall n string :: visited(5)[n] ==> n in metricMap.Sets) && pbDistinctS(pbMetricMap.Sets) && metricName in pbMetricMap.Sets && m == metricMap.Sets[metricName]
+//@   loop 6 invariant forall n string :: n in pbMetricMap.Sets && n != metricName ==> pbOKS(pbMetricMap.Sets[n], metricMap.Sets[n])
+//@   loop 6 invariant pbMetricMap.Sets[metricName] != nil && allocated(pbMetricMap.Sets[metricName]) && pbMetricMap.Sets[metricName].TagMap != nil && allocated(pbMetricMap.Sets[metricName].TagMap) && (forall t string :: (t in pbMetricMap.Sets[metricName].TagMap) == visited(6)[t])
+//@   loop 6 invariant forall t string :: t in pbMetricMap.Sets[metricName].TagMap ==> t in m && pbMetricMap.Sets[metricName].TagMap[t] != nil && allocated(pbMetricMap.Sets[metricName].TagMap[t]) && sameMembers(pbMetricMap.Sets[metricName].TagMap[t].Values, m[t].Values) && pbMetricMap.Sets[metricName].TagMap[t].Hostname == m[t].Source && pbMetricMap.Sets[metricName].TagMap[t].Tags == m[t].Tags
+//@   loop 8 invariant pbMetricMap.Timers != nil && allocated(pbMetricMap.Timers) && (forall n string :: (n in pbMetricMap.Timers) == visited(8)[n]) && (forall n string :: visited(8)[n] ==> n in metricMap.Timers) && pbDistinctT(pbMetricMap.Timers)
+//@   loop 8 invariant forall n string :: n in pbMetricMap.Timers ==> pbOKT(pbMetricMap.Timers[n], metricMap.Timers[n])
+//@   loop 9 invariant pbMetricMap.Timers != nil && allocated(pbMetricMap.Timers) && (forall n string :: (n in pbMetricMap.Timers) == visited(8)[n]) && (forall n string :: visited(8)[n] ==> n in metricMap.Timers) && pbDistinctT(pbMetricMap.Timers) && metricName in pbMetricMap.Timers && m == metricMap.Timers[metricName]
+//@   loop 9 invariant forall n string :: n in pbMetricMap.Timers && n != metricName ==> pbOKT(pbMetricMap.Timers[n], metricMap.Timers[n])
+//@   loop 9 invariant pbMetricMap.Timers[metricName] != nil && allocated(pbMetricMap.Timers[metricName]) && pbMetricMap.Timers[metricName].TagMap != nil && allocated(pbMetricMap.Timers[metricName].TagMap) && (forall t string :: (t in pbMetricMap.Timers[metricName].TagMap) == visited(9)[t])
+//@   loop 9 invariant forall t string :: t in pbMetricMap.Timers[metricName].TagMap ==> t in m && pbMetricMap.Timers[metricName].TagMap[t] != nil && allocated(pbMetricMap.Timers[metricName].TagMap[t]) && pbMetricMap.Timers[metricName].TagMap[t].SampleCount == m[t].SampledCount && pbMetricMap.Timers[metricName].TagMap[t].Values == m[t].Values && pbMetricMap.Timers[metricName].TagMap[t].Hostname == m[t].Source && pbMetricMap.Timers[metricName].TagMap[t].Tags == m[t].Tags
+//@   loop 7 invariant forall n string, t string :: n in pbMetricMap.Sets && pbMetricMap.Sets[n] != nil && t in pbMetricMap.Sets[n].TagMap && pbMetricMap.Sets[n].TagMap[t] != nil ==> elems(pbMetricMap.Sets[n].TagMap[t].Values) == pre(elems(pbMetricMap.Sets[n].TagMap[t].Values))
+//@   loop 7 invariant (base(values) == 0 || loopFresh(base(values))) && (forall i int :: off(values) <= i && i < off(values) + len(values) ==> (at(values, i) in metric.Values)) && (forall x string :: visited(7)[x] ==> (exists i int :: off(values) <= i && i < off(values) + len(values) && at(values, i) == x))
+//@   modifies everything
